@@ -260,7 +260,7 @@ func (self *Parser) functionType() (ast.FunctionType, *errors.Error) {
 
 	// make optional return type
 	returnType := ast.HmsType(ast.NameReferenceType{
-		Ident: ast.NewSpannedIdent("null", self.PreviousToken.Span.End.Until(self.CurrentToken.Span.End, self.Filename)),
+		Ident: ast.NewSpannedIdent("null", self.PreviousToken.Span),
 	})
 
 	if self.CurrentToken.Kind == lexer.Arrow {
